@@ -1337,6 +1337,10 @@ struct System {
     /// every coefficient and right-hand side was multiplied by this power of
     /// two (exact in f32): the same well-conditioned system in other units
     scale: f32,
+    /// the unknowns in other units: every solution component (free and fixed)
+    /// was multiplied by this power of two and every coefficient divided by it
+    /// (right-hand sides unchanged; exact in f32)
+    xscale: f32,
 }
 
 fn gen_system(ch: &mut Chooser) -> System {
@@ -1459,6 +1463,25 @@ fn gen_system(ch: &mut Chooser) -> System {
             *v *= scale;
         }
     }
+    // the unknowns in other units (added after seeded change C19-m): x = s * y
+    // with s a power of two; conditioning and right-hand sides are unchanged,
+    // the solution and every step of the iteration shrink or grow by s
+    let xscale: f32 = match ch.choose("xscale_kind", 6) {
+        4 => 0.5f32.powi(1 + ch.choose("xscale_down", 30) as i32),
+        5 => 2f32.powi(1 + ch.choose("xscale_up", 10) as i32),
+        _ => 1.0,
+    };
+    let mut xstar = xstar;
+    if xscale != 1.0 {
+        for r in rows.iter_mut() {
+            for t in r.iter_mut() {
+                t.1 /= xscale;
+            }
+        }
+        for v in xstar.iter_mut() {
+            *v *= xscale;
+        }
+    }
     // sometimes the caller's parameter map also holds free parameters that no
     // equation mentions: they must still get a value ("exactly the free
     // parameters"); nothing constrains them, so only their presence is checked
@@ -1470,7 +1493,7 @@ fn gen_system(ch: &mut Chooser) -> System {
         for _ in 0..extra {
             n += 1;
             free.push(true);
-            xstar.push(if exact { 0.5 } else { ch.float_sym("unused_val", 2.0, 8) });
+            xstar.push(xscale * if exact { 0.5 } else { ch.float_sym("unused_val", 2.0, 8) });
         }
     }
     let split: Vec<Vec<bool>> = rows
@@ -1486,6 +1509,7 @@ fn gen_system(ch: &mut Chooser) -> System {
         exact,
         split,
         scale,
+        xscale,
     }
 }
 
@@ -1534,12 +1558,13 @@ pub fn run_c19(st: &Shared, _tier: Tier) -> RunReport {
     let vars: Vec<Var> = (0..sys.n).map(|_| Var::new()).collect();
     let nfree = sys.free.iter().filter(|f| **f).count();
     rep.sample = format!(
-        "n={} free={} rows={} exact={} scale={:e} rows[0]={:?}",
+        "n={} free={} rows={} exact={} scale={:e} xscale={:e} rows[0]={:?}",
         sys.n,
         nfree,
         sys.rows.len(),
         sys.exact,
         sys.scale,
+        sys.xscale,
         sys.rows.first()
     );
     rep.count("fault.fresh_hash_keys_and_var_ids", 1);
@@ -1595,12 +1620,17 @@ pub fn run_c19(st: &Shared, _tier: Tier) -> RunReport {
             if at_solution {
                 sys.xstar[i]
             } else {
-                sys.xstar[i] + st.borrow_mut().ch.float_sym("start_d", 1.0, 8)
+                sys.xstar[i] + sys.xscale * st.borrow_mut().ch.float_sym("start_d", 1.0, 8)
             }
         })
         .collect();
     let bmax = sys.b.iter().map(|v| v.abs()).fold(0.0f32, f32::max) as f64;
     let tol = 1e-3 * (sys.scale as f64 + bmax);
+    if sys.xscale < 1.0 {
+        rep.count("op.unknowns_scaled_down", 1);
+    } else if sys.xscale > 1.0 {
+        rep.count("op.unknowns_scaled_up", 1);
+    }
     if sys.scale < 1.0 {
         rep.count("op.system_scaled_down", 1);
     } else if sys.scale > 1.0 {
@@ -1679,10 +1709,11 @@ pub fn run_c19(st: &Shared, _tier: Tier) -> RunReport {
                 "C19",
                 format!("{what}_residual"),
                 format!(
-                    "max |residual| {r:e} > {tol:e} (n={} free={nfree} rows={} coefficient scale {:e})",
+                    "max |residual| {r:e} > {tol:e} (n={} free={nfree} rows={} coefficient scale {:e}, unknowns in units of {:e})",
                     sys.n,
                     sys.rows.len(),
-                    sys.scale
+                    sys.scale,
+                    sys.xscale
                 ),
             );
             return None;
@@ -1709,7 +1740,7 @@ pub fn run_c19(st: &Shared, _tier: Tier) -> RunReport {
             .map(|((p, q), _)| (p - q).abs())
             .fold(0.0, f64::max);
         rep.checked_oracle += 1;
-        if !(d <= 1e-3 * (1.0 + bmax / sys.scale as f64)) {
+        if !(d <= 1e-3 * sys.xscale as f64 * (1.0 + bmax / sys.scale as f64)) {
             rep.violate(
                 "C19",
                 "backends_disagree",
@@ -1755,7 +1786,7 @@ pub fn run_c19(st: &Shared, _tier: Tier) -> RunReport {
             .choose("move_fixed", fixed_idx.len() as u32)
             as usize];
         let mut fv = sys.xstar.clone();
-        fv[k] += 0.75;
+        fv[k] += 0.75 * sys.xscale;
         rep.count("op.fixed_value_moved", 1);
         // the moved system must stay consistent: recompute what the free
         // variables' rows need.  Rows that do not mention a free variable
